@@ -168,6 +168,18 @@ pub fn mutating_ops(n: usize, len: usize, wide: bool) -> Vec<Op> {
                 ops.push(Op::Drain(canonical(a, b), vec![], End::Drop));
             }
         }
+        // bounds that answer differently from call to call (every reading must leave a valid buffer)
+        for a in 0..=len {
+            for b in a..=len {
+                for mode in 0..3u8 {
+                    for which in 0..3u8 {
+                        ops.push(Op::ShiftyRange(canonical(a, b), mode, which));
+                    }
+                }
+            }
+        }
+        ops.push(Op::ShiftyRange(canonical(len + 1, len + 2), 0, 0));
+        ops.push(Op::ShiftyRange(canonical(0, len + 1), 1, 0));
         // a few out-of-range ones too (documented panics are part of the semantics)
         ops.push(Op::Drain(canonical(0, len + 1), vec![], End::Drop));
         ops.push(Op::Drain(canonical(len + 1, len + 1), vec![], End::Drop));
@@ -866,7 +878,7 @@ pub fn c20(n: usize, start: usize, len: usize) -> Vec<Case> {
 /// both ends, the middle, the logical index where the contents wrap around the end of the array, and the
 /// neighbourhoods of 32 and 64 (thresholds an implementation might special-case).
 pub fn boundary_positions(n: usize, start: usize, len: usize) -> Vec<usize> {
-    let mut v: Vec<usize> = vec![0, 1, 2, len / 2, len.saturating_sub(2), len.saturating_sub(1), len, len + 1, 7, 8, 9, 15, 16, 17, 31, 32, 33, 63, 64, 65];
+    let mut v: Vec<usize> = vec![0, 1, 2, len / 2, len.saturating_sub(2), len.saturating_sub(1), len, len + 1, 7, 8, 9, 15, 16, 17, 31, 32, 33, 63, 64, 65, 1023, 1024, 1025];
     if start > 0 && n > start {
         let w = n - start;
         v.extend([w.saturating_sub(1), w, w + 1]);
@@ -882,7 +894,7 @@ pub fn large_units(n: usize) -> Vec<(usize, usize, usize)> {
     starts.retain(|s| *s < n.max(1));
     starts.sort_unstable();
     starts.dedup();
-    let mut lens = vec![0, 1, 2, 3, 4, 5, 8, 15, 16, 17, n / 64, n / 64 + 1, n / 8, n / 2, n.saturating_sub(2), n.saturating_sub(1), n, 31, 32, 33, 63, 64, 65];
+    let mut lens = vec![0, 1, 2, 3, 4, 5, 8, 15, 16, 17, n / 64, n / 64 + 1, n / 8, n / 2, n.saturating_sub(2), n.saturating_sub(1), n, 31, 32, 33, 63, 64, 65, 1025, 1200];
     lens.retain(|l| *l <= n);
     lens.sort_unstable();
     lens.dedup();
